@@ -364,17 +364,17 @@ _p('C05', ['PK', 'LV', 'F1', 'F2', 'H1', 'REP', 'STALE'],
 
 
 TECHNIQUE = {
-    'C05': 'call-graph route agreement of pack/string/unpack; handler structure of pack; purity of memoised parsers',
-    'C02': 'role-dispatch census of creation/reading routes; structural comparison of integer encoders/decoders; table agreement',
-    'C12': 'switch-table comparison; reachability from whole-value operations to position-taking slots; variant-reference census',
-    'C15': 'who-may-call + guard dominance at the Dtype choke point; sibling agreement of setters and ingest routes; validate-before-mutate',
+    'C05': 'call-graph route agreement of pack/string/unpack; handler structure of pack; purity of memoised parsers; classification of how the multiplier expansion grows its list; loop-carried remaining-bits check',
+    'C02': 'role-dispatch census of creation/reading routes; structural comparison of integer encoders/decoders; partial evaluation of the struct formats reached per (length, byte order); integer-exactness and signed-zero checks on the value path',
+    'C12': 'switch-table comparison; reachability from whole-value operations to position-taking slots; variant-reference census; single-mirror check of the store-level lsb0 variants',
+    'C15': 'who-may-call + guard dominance at the Dtype choke point; sibling agreement of setters and ingest routes; bounds tests vs window ends as linear forms; validate-before-mutate',
     'C19': 'escape-literal census with branch placement; Colour construction sites; pp table/division obligations',
-    'C03': 'path walk of mutators for raise-after-effect; bound derivation of write loops; guard facts for helper asserts',
-    'C14': 'three-sorted dimension analysis (bits/units/items) of array_.py; atomicity path rule; dtype-writer guard',
+    'C03': 'path walk of mutators for raise-after-effect; bound derivation of write loops; guard facts for helper asserts; sibling guard agreement of re-implemented mutators; operand-read-after-mutation check',
+    'C14': 'three-sorted dimension analysis (bits/units/items) of array_.py; atomicity path rule; dtype-writer guard; dtype-agreement (name, width, scale) for raw data transfer; memo coherence',
     'C20': 'member resolution, raise/assert/division censuses with dominating-guard facts, symtable names, global-write census',
     'C01': 'result-class provenance typing per concrete class; sibling guard agreement; field-read reachability',
     'C06': 'typestate of _pos: classification of all writes, rollback path walk, effect/override coverage, post-condition table',
-    'C07': 'sibling guard agreement; forward-or-validate dataflow of start/end; taint of raw bytealigned to search sinks',
+    'C07': 'sibling guard agreement; forward-or-validate dataflow of start/end; taint of raw bytealigned to search sinks (followed through the receiving parameter); inward byte rounding of byte-level searches',
     'C08': 'field read-confinement census; representation invariant of BitStore.modified_length; ingress-copy rules',
     'C10': 'exception-translation chain and guard dominance over exp-Golomb setters/getters/decoders/reader closures',
     'C13': 'MRO resolution of __hash__/__eq__; field-dependence reachability; handler check',
@@ -382,7 +382,7 @@ TECHNIQUE = {
     'C04': 'ownership/provenance analysis of BitStore installs with object-kind dataflow over the resolved call graph; effect summaries',
     'C11': 'exhaustive table validation against an exact format model (constant folding of luts.py literals); partial evaluation of format constructors',
     'C09': 'call-graph reachability from lru_cache functions to option reads; global-write census; switch-table comparison',
-    'C17': 'constant folding of the tofile chunk size; delegation and guard-dominance checks; ingest feature matrix',
+    'C17': 'constant folding of the tofile chunk size; delegation and guard-dominance checks; ingest feature matrix with window bounds as linear forms',
     'C18': 'regex character classes (re._parser) vs dict-literal tables vs struct.calcsize; branch interpretation',
 }
 
